@@ -43,7 +43,7 @@ PROPS = {
         shards={"quick": 8, "thorough": 16},
     ),
     "C09": dict(
-        pkg=".", test="TestVerifC09", model="C09", verdict="C09v", level="proof",
+        pkg=".", test="TestVerifC09", model="C09", verdict="C09v", level="proof", also=["C13"],
         rule="a case is a server configuration (K, mode, subsystems, routing table, peerstore addresses incl. >8KiB "
              "lists, stored providers/values) plus 3-14 requests of every message type with missing/oversized/"
              "mismatched fields, stuffed peer records, foreign/invalid provider records and raw malformed frames, sent "
